@@ -124,5 +124,8 @@ example : ((parseFile [⟨T.IDENT, [100]⟩, opTok T.ASSIGN, opTok T.MUL, semi])
 example : ((parseFile [⟨T.IDENT, [100]⟩, opTok T.ASSIGN, opTok T.LPAREN, opTok T.RPAREN, semi]).map (·.errs.length)) = some 1 := by decide
 example : ((parseFile [⟨T.IDENT, [100]⟩, opTok T.ASSIGN, tA, opTok T.OR, semi]).map (·.errs.length)) = some 1 := by decide
 example : StopExpr [semi] := by simp +decide [StopExpr, StopTerm]
+/-- hypothesis of `C31_illformed_errors` is satisfiable: `d = ;` yields the empty Sequence -/
+example : ∃ r, parseFile [⟨T.IDENT, [100]⟩, opTok T.ASSIGN, semi] = some r ∧ ∃ rule ∈ r.rules, ¬ NF rule.expr :=
+  ⟨_, rfl, ⟨[100], .seq []⟩, by simp, by simp [NF, NFP]⟩
 
 end GopModel.Tpl
